@@ -2,7 +2,7 @@ from __future__ import annotations
 
 from typing import Any
 
-from ..encoding.sec import sec_to_public_pair, EncodingError
+from ..encoding.bytes32 import from_bytes_32
 
 from . import der
 from . import errno
@@ -129,6 +129,36 @@ def check_public_key_encoding(blob: bytes) -> None:
     raise ScriptError("invalid public key blob", errno.PUBKEYTYPE)
 
 
+def public_pair_for_blob(blob: bytes, generator: Any) -> tuple[int, int] | None:
+    """
+    Parse a public key the way consensus does: 33 bytes with prefix 02/03, or 65 bytes
+    with prefix 04, or with prefix 06/07 ("hybrid") when the low bit of the prefix is the
+    parity of y; coordinates below the field prime; on the curve. Anything else is not a key
+    (None), and no signature verifies against it.
+    """
+    p = generator.p()
+    size = len(blob)
+    prefix = blob[0] if size > 0 else None
+    if size == 33 and prefix in (2, 3):
+        x = from_bytes_32(blob[1:])
+        if x >= p:
+            return None
+        try:
+            point = generator.points_for_x(x)[prefix & 1]
+        except ValueError:
+            return None
+        return (point[0], point[1])
+    if size == 65 and prefix in (4, 6, 7):
+        x = from_bytes_32(blob[1:33])
+        y = from_bytes_32(blob[33:])
+        if x >= p or y >= p or not generator.contains_point(x, y):
+            return None
+        if prefix != 4 and (y & 1) != (prefix & 1):
+            return None
+        return (x, y)
+    return None
+
+
 def checksig(
     vm: Any,
     sig_pair: tuple[int, int] | None,
@@ -148,9 +178,8 @@ def checksig(
     if sig_pair is None:
         # empty or unparseable signature: it matches no key, but the key encoding rules above still apply
         return False
-    try:
-        public_pair = sec_to_public_pair(pair_blob, generator, strict=verify_strict)
-    except (ValueError, EncodingError):
+    public_pair = public_pair_for_blob(pair_blob, generator)
+    if public_pair is None:
         return False
 
     if signature_type not in sighash_cache:
